@@ -140,8 +140,8 @@ class API:
     def loop_entry(self, K, L, loc):
         con, spec, clauses = self._inv(L, 0, loc)
         ctx = cur()
-        for label, cond in clauses:
-            ctx.prove("%s:loop%d:inv.entry:%s" % (con.name, K, label), cond, kind="inv.entry",
+        for cl in clauses:
+            ctx.prove("%s:loop%d:inv.entry:%s" % (con.name, K, cl[0]), cl[1], kind="inv.entry",
                       props=spec.props or con.props, role="aux", assume_after=False)
 
     def loop_fork(self, K):
@@ -153,13 +153,25 @@ class API:
         n = L.seq.length()
         ns = dict(loc)
         new = []
-        for nm in names:
+        deferred = []
+        for idx_, nm in enumerate(names):
             if nm not in loc:
                 new.append(UNDEF)
+                continue
+            t = spec.types.get(nm)
+            if callable(t) and getattr(t, "needs_ns", False):
+                new.append(None)
+                deferred.append((idx_, nm, t))
                 continue
             v = self._havoc_value(nm, loc[nm], spec)
             ns[nm] = v
             new.append(v)
+        # variables the invariant *defines* in terms of the others (e.g. last == ids[-1]): the local then is that
+        # term, not a fresh symbol constrained to equal it
+        for idx_, nm, t in deferred:
+            v = t(C(), loc[nm], types.SimpleNamespace(**{k: x for k, x in ns.items() if not k.startswith("__")}))
+            ns[nm] = v
+            new[idx_] = v
         for obj, attr in attrs:
             if obj in loc and hasattr(loc[obj], attr):
                 o = loc[obj]
@@ -167,13 +179,14 @@ class API:
         if mode == "pres":
             i = fresh("int", "i!loop%d" % K)
             ctx.assume(sand(0 <= i, i < n))
+            sym.mark_index(i)
             L.index = i
         else:
             i = n
             ctx.assume(n >= 0)
         _, _, clauses = self._inv(L, i, ns)
-        for label, cond in clauses:
-            ctx.assume(cond)
+        for cl in clauses:
+            ctx.assume(cl[1], tag="inv:" + cl[0])
         return tuple(new)
 
     def _havoc_value(self, nm, old, spec):
@@ -202,6 +215,10 @@ class API:
             ek = t[5:-1]
             m = fresh("int", nm + "_len")
             cur().assume(m >= 0)
+            if "," in ek:
+                parts = [sym.sym_seq("%s_%d" % (nm, i), m, (), k.strip()) for i, k in enumerate(ek.split(","))]
+                s = SSeq(m, lambda q, parts=parts: tuple(p.get(q) for p in parts), ek)
+                return s
             s = sym.sym_seq(nm, m, (), ek)
             s.elem_kind = ek
             return s
@@ -210,9 +227,12 @@ class API:
     def loop_after(self, K, L, loc):
         con, spec, clauses = self._inv(L, L.index + 1, loc)
         ctx = cur()
-        for label, cond in clauses:
-            ctx.prove("%s:loop%d:inv.pres:%s" % (con.name, K, label), cond, kind="inv.pres",
-                      props=spec.props or con.props, role="aux", assume_after=False)
+        for cl in clauses:
+            uses = None
+            if len(cl) > 2 and cl[2] is not None:
+                uses = set(cl[2]) | {cl[0]}
+            ctx.prove("%s:loop%d:inv.pres:%s" % (con.name, K, cl[0]), cl[1], kind="inv.pres",
+                      props=spec.props or con.props, role="aux", assume_after=False, only_inv=uses)
         raise PathEnd()
 
 
@@ -544,6 +564,19 @@ class Loader:
         mod = self.modules[q.rsplit(".", 1)[0]] if q.rsplit(".", 1)[0] in self.modules else None
         for r in con.raises:
             w = r.when(c, a)
+            if isinstance(w, (bool, _np.bool_)):
+                if w:
+                    raise self.exception_class(q, r.exc)("raised by contract %s:%s" % (q, r.label))
+                continue
+            wt = _term(w)
+            can_raise = ctx._feasible(wt)
+            if not can_raise:
+                continue
+            if ctx.generic or getattr(con, "callers_must_not_raise", False):
+                # inside a comprehension element (or by the contract's choice): the caller has to establish that
+                # the exception cannot occur
+                ctx.prove("pre:%s:no_%s" % (q, r.label), snot(w), kind="pre", props=con.props, role="aux")
+                continue
             if bool(w):
                 raise self.exception_class(q, r.exc)("raised by contract %s:%s" % (q, r.label))
         res = con.result(c, a)
